@@ -6,6 +6,7 @@ mod binrun;
 mod lex;
 mod auto;
 mod corpus;
+mod dot;
 mod enumr;
 mod fam;
 mod json;
@@ -67,6 +68,7 @@ fn main() {
         "C13" => props::c13::run(tier),
         "C14" => props::c14::run(tier),
         "C15" => props::c15::run(tier),
+        "C16" => props::c16::run(tier),
         "C17" => props::c17::run(tier),
         other => {
             eprintln!("unknown check {other}");
